@@ -25,7 +25,7 @@ SCHED_ASSUME = [
 TASK_ASSUME = ("unit task: the real bodies of Runner::{new,can_start_more,is_running,start,wait} and ThreadIds::{claim,release} are verified: can_start_more == (running < parallelism), start/wait change `running` by exactly one without overflow/underflow, "
     "slot indices are in range (wait never panics); TRUSTED representation axiom rs::ax_runner_repr: |live| == running and par == parallelism (which thread runs what cannot be stated over fields); the spawned closure of Runner::start is kept (thread::spawn, Instant::now, channel send/recv are stubs): "
     "it is proved to label its completion with the id/tid of its start call and to report an error outside the process as Termination::Failure; run_task is proved to pass the command's termination on unchanged, to read the depfile only after Success and to report exactly what read_depfile returned, to filter /showIncludes lines whatever the outcome; "
-    "R23: run_task's call of process::run_command with its output-collecting closure (captures two mutable references, unsupported) is replaced by one opaque call that may change `output` arbitrarily -- that closure body is not verified; read_depfile and write_rspfile are stubs (iterator adapters / fs)")
+    "R23: run_task's call of process::run_command with its output-collecting closure (captures two mutable references, unsupported) is replaced by one opaque call that may change `output` arbitrarily -- that closure body is not verified; write_rspfile is a stub (fs); read_depfile is verified up to two text-matched wrappers")
 PROC_ASSUME = ("unit proc: process_posix::run_command returns the decoding (exit status 0 -> Success, SIGINT -> Interrupted, anything else -> Failure) of the status "
     "waitpid stored for the child it spawned, over a TRUSTED libc shim (waitpid, W* helpers uninterpreted except exited/signaled exclusive) and the documented unix meaning of "
     "ExitStatus::{from_raw,success,signal,code}; R22: the spawn block (pipe2/posix_spawn, raw pointers) is replaced by one opaque call and is not verified; the read loop is not shown to terminate "
@@ -93,10 +93,10 @@ PROPS["C12"] = {
         "allocation failure, stack overflow on recursive includes and file I/O are outside the contract language"],
 }
 PROPS["C15"] = {
-    "units": ["scan"],
-    "probes": {"scan": ["depfile::read_path", "depfile::parse", "smallmap::SmallMap::push"]},
+    "units": ["scan", "task"],
+    "probes": {"scan": ["depfile::read_path", "depfile::parse", "smallmap::SmallMap::push"], "task": ["task::read_depfile"]},
     "level": "proof",
-    "assumptions": SCAN_ASSUME + ["task::read_depfile (missing file => empty, flattening of the map by iterator adapters, naming the depfile in the error) is not under contract",
+    "assumptions": SCAN_ASSUME + ["unit task: task::read_depfile's control flow is verified over a trusted view of the file (missing / content) and of depfile::parse (parsed_of, None = parse error): a missing depfile gives the empty list, any other read error and any parse error fail the step, otherwise the result is the flattening of the parsed entries; the flattening pipeline itself (iterator adapters) and the map_err closure naming the depfile are R9 wrappers matched on their exact text (a change to them is exit 2, not a pass)",
         "the grammar is specified at token level (what delimits a token); equivalence with GNU make's full grammar is not claimed"],
 }
 PROPS["C10"] = {
@@ -251,7 +251,7 @@ LEVEL_TEXT = {
     },
     "C09": {
         "text": "Unbounded proof (Verus) on the real text of Work::record_finished: the step's discovered list after a successful command is disc_list(ids, dirtying_ins) -- a spec function of the reported names (canonicalised, mapped to file ids in report order, first occurrence kept, declared dirtying inputs dropped) in which the previous list does not occur (replaced wholesale); every other build and every existing file is unchanged (disc_replaced), so build order (ordering_ins) cannot change; discovered deps are part of the signature (build_manifest) and of the covered set of check_build_files_missing, where a missing discovered dep yields Ok(Some(f)) => dirty, and Err is proved to arise only for declared non-generated inputs or generated files without ordering.",
-        "note": "extract_showincludes and run_task (depfile only after Success, report = what read_depfile returned, /showIncludes filtered whatever the outcome) proved in unit task; read_depfile is a stub (iterator adapters). Genuine defect D12 (adopt mode dropped discovered deps) found while writing this contract and fixed in /repo (3670725).",
+        "note": "extract_showincludes and run_task (depfile only after Success, report = what read_depfile returned, /showIncludes filtered whatever the outcome) proved in unit task; read_depfile's control flow is verified too (its flattening pipeline is a text-matched trusted wrapper). Genuine defect D12 (adopt mode dropped discovered deps) found while writing this contract and fixed in /repo (3670725).",
         "design_ref": "DESIGN.md §6 C09",
     },
     "C12": {
@@ -261,7 +261,7 @@ LEVEL_TEXT = {
     },
     "C15": {
         "text": "Unbounded proof (Verus) on the real depfile.rs: read_path returns exactly the bytes from the first non-skipped offset up to (excluding) the first delimiter -- NUL, space, newline, or a backslash followed by a newline -- so colons and other backslashes stay inside a token; parse terminates on every input, and (loop invariant) the flattened result equals the concatenation, in order, of the prerequisites read for every entry, repeated targets included (entries are appended with SmallMap::push since the fix for D11).",
-        "note": "D11 (a repeated target lost its earlier prerequisites) was found by this contract and is fixed in /repo (6d385c8). task::read_depfile glue not under contract.",
+        "note": "D11 (a repeated target lost its earlier prerequisites) was found by this contract and is fixed in /repo (6d385c8). task::read_depfile's control flow is under contract (unit task); its flattening pipeline is a text-matched trusted wrapper.",
         "design_ref": "DESIGN.md §6 C15",
     },
     "C10": {
